@@ -238,7 +238,8 @@ def _pick_weighted(rng, weights, allowed):
 def gen_case(rng, n_min=3, n_max=9, runner=None, nproc=None, weights=None, p_group=0.3, p_shared=0.5,
              p_dual=0.08, p_dup_sel=0.15, p_ignored=0.07, p_utd=0.18, p_error=0.07, p_failed=0.14, p_exc=0.08,
              p_teardown=0.25, p_cont=0.4, p_always=0.06, p_calc_deliver=0.85, sel_mode=None, policy=None,
-             allow_cycle=False, all_ok=False, p_meta_names=0.0, p_share_lists=0.0):
+             allow_cycle=False, all_ok=False, p_meta_names=0.0, p_share_lists=0.0, p_combo=0.0,
+             p_calc_then_fail=0.0):
     """One random run case.  Graph: 3..9 tasks in a hidden topological order (all edges, static and delivered by calc
     results, go from later to earlier rank, so the graph is acyclic unless allow_cycle), then the definition order is
     shuffled.  Edge kinds: task_dep / setup / calc_dep / file (target->file_dep) / getargs (setup edge) / result_dep
@@ -247,7 +248,10 @@ def gen_case(rng, n_min=3, n_max=9, runner=None, nproc=None, weights=None, p_gro
     Opt-in knobs (default 0.0 = case stream unchanged, no extra draw from `rng`): p_meta_names = probability that task
     names get glob / format metacharacters (`t[3]`, `t?3`, `t{3}`, `g[0]:a?`; see apply_meta_names); p_share_lists =
     probability that tasks with equal `setup` / `task_dep` / `calc_dep` / `file_dep` / `targets` values are given ONE
-    shared list object in the dodo namespace (case['share'], see build_namespace)."""
+    shared list object in the dodo namespace (case['share'], see build_namespace); p_combo = probability that one
+    not-up-to-date task gets a calc_dep AND a task_dep AND a setup-task at once (three distinct lower-ranked tasks) and is
+    likely to be selected by name first, so that its calc_dep finishes (node woken) and then its task_dep finishes before
+    the node is stepped (case['combo'] = its name); p_calc_then_fail: see `how` = 'calc_then_fail' in the case format."""
     w = dict(DEFAULT_WEIGHTS)
     w.update(weights or {})
     n = rng.randint(n_min, n_max)
@@ -340,11 +344,35 @@ def gen_case(rng, n_min=3, n_max=9, runner=None, nproc=None, weights=None, p_gro
                 if vn not in t['result_dep']:
                     t['result_dep'].append(vn)
             popular.append(v)
+    combo = None
+    if p_combo and rng.random() < p_combo:
+        cand_w = [r for r, t in enumerate(ranked) if r >= 3 and t['kind'] != 'group']
+        if cand_w:
+            r = rng.choice(cand_w)
+            t = ranked[r]
+            low = [x for x in ranked[:r] if x['kind'] == 'task']
+            if len(low) >= 3:
+                c_, d_, s_ = sorted(rng.sample(low, 3), key=lambda x: rank[x['name']])
+                if rng.random() < 0.5:
+                    d_, s_ = s_, d_
+                # the calc_dep is the lowest-ranked of the three (it tends to finish first); mostly a clean success path
+                t['status'], t['ignored'] = 'run', False
+                if not all_ok and rng.random() < 0.8:
+                    for v in (c_, d_, s_):
+                        v['outcome'], v['ignored'] = 'ok', False
+                        if v['status'] == 'error':
+                            v['status'] = 'run'
+                for key, v in (('calc_dep', c_), ('task_dep', d_), ('setup', s_)):
+                    if v['name'] not in t[key]:
+                        t[key].append(v['name'])
+                combo = t['name']
     for t in ranked:
         if t['status'] == 'error':
             t['file_dep'].append('missing_%s' % t['name'].replace(':', '_'))
     # ---- calc results (delivered deps point below every receiver's rank)
     case = {'tasks': ranked, 'sel': None, 'cont': False, 'always': False, 'runner': 'serial', 'nproc': 0}
+    if combo is not None:
+        case['combo'] = combo
     receivers = {}
     for t in ranked:
         for c in t['calc_dep']:
@@ -403,6 +431,8 @@ def gen_case(rng, n_min=3, n_max=9, runner=None, nproc=None, weights=None, p_gro
             a['task_dep'].append(b['name'])      # low rank depends on high rank: may close a cycle
     # ---- selection
     mode = sel_mode or rng.choice(['all', 'all', 'all', 'names', 'names', 'names', 'target', 'target'])
+    if combo is not None and sel_mode is None and rng.random() < 0.5:
+        mode = 'names'
     names = [t['name'] for t in order]
     files = sorted(f for t in order for f in t['targets'])
     if mode == 'names' or (mode == 'target' and not files):
@@ -425,6 +455,8 @@ def gen_case(rng, n_min=3, n_max=9, runner=None, nproc=None, weights=None, p_gro
                 first = sel.index(dup)
                 rest_ = [x for i_, x in enumerate(sel) if x != dup or i_ == first]
                 sel = rest_ + [dup]
+        if combo is not None and rng.random() < 0.7:
+            sel = [combo] + [x for x in sel if x != combo]
         case['sel'] = sel
     elif mode == 'target':
         sel = [rng.choice(files)]
@@ -490,6 +522,8 @@ def rename_tasks(case, mapping):
                     t['calc_res'][k] = [m(x) for x in t['calc_res'][k]]
     if case.get('sel') is not None:
         case['sel'] = [m(x) for x in case['sel']]
+    if case.get('combo') is not None:
+        case['combo'] = m(case['combo'])
 
 
 def apply_meta_names(case, rng, p_each=0.6):
@@ -566,6 +600,8 @@ def count_case(st, case, obs=None):
     """histogram of the input distribution (and of the branches the implementation took) into st.count"""
     if case.get('meta_names'):
         st.count('names:metachars')
+    if case.get('combo') is not None:
+        st.count('combo:calc+task+setup')
     if case.get('share'):
         st.count('share:lists')
         for _a in case['share'].get('attrs', ()):
